@@ -395,6 +395,11 @@ fn decode_regex(t: &mut Tape) -> ReCase {
                 1 => re.push_str("\\w"),
                 2 => re.push_str("\\D"),
                 3 => re.push_str("\\W"),
+                4 if t.chance(1, 3) => {
+                    // a class listing the character between other members, with identity escapes
+                    let e = regex::escape(&ch.to_string());
+                    re.push_str(t.choose(&["[.\\-_CH]", "[_\\-.CH]", "[CH\\-.]", "[\\_CH.]"]).replace("CH", &e).as_str());
+                }
                 4 => re.push_str("[a-z]"),
                 5 => re.push_str("[A-Z0-9]"),
                 6 => {
